@@ -131,6 +131,102 @@ func probeSend(ws, recv bool, field string, ch rune) (res string) {
 	return "missing"
 }
 
+// ---- round D facts ----------------------------------------------------------------------------
+
+func leanBytes(s string) string {
+	var l []string
+	for i := 0; i < len(s); i++ {
+		l = append(l, fmt.Sprintf("0x%02x", s[i]))
+	}
+	return "[" + strings.Join(l, ", ") + "]"
+}
+
+// jidEqualUniverse: the established addresses of the near-miss cases, a spread of their near
+// misses (the same octets cut differently, one octet less / more, bare / full), and plain ones.
+func jidEqualUniverse() []jid.JID {
+	var raws []string
+	for _, p := range nearPairs {
+		for _, a := range p {
+			raws = append(raws, a)
+			raws = append(raws, nearMisses(a, 4)...)
+		}
+	}
+	raws = append(raws, "example.net", "user@example.net", "user@example.net/r", "a@b/c", "ab@c", "a@bc", "a/bc", "abc")
+	seen := map[string]bool{}
+	var out []jid.JID
+	for _, raw := range raws {
+		j, err := jid.Parse(raw)
+		if err != nil || seen[j.String()] {
+			continue
+		}
+		seen[j.String()] = true
+		out = append(out, j)
+	}
+	return out
+}
+
+// jidEqualProbe: the REAL jid.JID.Equal (the comparison negotiator.go uses for every address check
+// of a stream header) on ALL pairs of the universe; the universe is emitted as (localpart,
+// domainpart, resourcepart) octets, the results as a matrix in universe order.
+func jidEqualProbe() string {
+	u := jidEqualUniverse()
+	var us, rows []string
+	for _, a := range u {
+		us = append(us, fmt.Sprintf("(%s, %s, %s)", leanBytes(a.Localpart()), leanBytes(a.Domainpart()), leanBytes(a.Resourcepart())))
+		var row []string
+		for _, b := range u {
+			row = append(row, fmt.Sprint(a.Equal(b)))
+		}
+		rows = append(rows, "["+strings.Join(row, ", ")+"]")
+	}
+	return fmt.Sprintf("/-- the addresses `JID.Equal` was probed on: (localpart, domainpart, resourcepart) octets -/\ndef jidEqualUniverse : Option (List (List UInt8 × List UInt8 × List UInt8)) := some [\n  %s]\n\n/-- row i, column j: the real `universe[i].Equal(universe[j])` -/\ndef jidEqualTable : Option (List (List Bool)) := some [\n  %s]\n\n",
+		strings.Join(us, ",\n  "), strings.Join(rows, ",\n  "))
+}
+
+var idAttrRe = regexp.MustCompile(` id='[0-9a-f]+'`)
+
+// emittedFor runs the session of hdrCase c (after the history c.prior) and returns everything it
+// wrote, with the random stream id blanked.
+func emittedFor(c hdrCase) string {
+	loc, _ := jidOrZero(c.loc)
+	orig, _ := jidOrZero(c.orig)
+	var conn *nc.Conn
+	runPrior(c.prior, c)
+	if p := common.Recover(func() {
+		if c.recv {
+			conn = nc.NewConn(nc.S(peerHeader(c.ws, "jabber:client", "", orig.String(), loc.String())))
+			_, _ = xmpp.NewSession(context.Background(), loc, orig, conn, xmpp.Received, negotiator(c.ws, c.lang))
+		} else {
+			conn = nc.NewConn()
+			_, _ = xmpp.NewSession(context.Background(), loc, orig, conn, 0, negotiator(c.ws, c.lang))
+		}
+	}); p != "" {
+		return "panic"
+	}
+	return string(idAttrRe.ReplaceAll(conn.Written(), []byte(" id='ID'")))
+}
+
+// sendHistoryProbe: for every history of `priors` x framing x role: does a REAL session write the
+// very bytes it writes without any history ("same"), or not ("differs")?
+func sendHistoryProbe() string {
+	var rows []string
+	for _, pr := range priors {
+		for _, ws := range []bool{false, true} {
+			for _, recv := range []bool{false, true} {
+				c := hdrCase{recv: recv, ws: ws, loc: "example.net", orig: "user@example.net/x'y", lang: "en"}
+				alone := emittedFor(c)
+				c.prior = pr
+				res := "differs"
+				if after := emittedFor(c); after == alone && alone != "panic" && alone != "" {
+					res = "same"
+				}
+				rows = append(rows, fmt.Sprintf("(%q, %v, %v, %q)", pr, ws, recv, res))
+			}
+		}
+	}
+	return fmt.Sprintf("/-- (history, websocket, receiving) ↦ does a real session write the same bytes as without the history -/\ndef sendHistoryProbe : Option (List (String × Bool × Bool × String)) := some [\n  %s]\n\n", strings.Join(rows, ",\n  "))
+}
+
 // Facts regenerates lean/XmppModel/Generated/C12.lean:
 //
 //   - sendRawAttrs: the attributes internal/stream.Send prints with a bare %s inside quotes
@@ -241,6 +337,9 @@ func Facts(repo string) (string, error) {
 		}
 		fmt.Fprintf(&sb, "def bindCapturedCallResults : Option (List String) := some [%s]\n\n", strings.Join(l, ", "))
 	}
+	// ---- 5. round D: the address comparison on all pairs, the header after every history ----
+	sb.WriteString(jidEqualProbe())
+	sb.WriteString(sendHistoryProbe())
 	sb.WriteString("end XmppModel.Generated.C12\n")
 	return sb.String(), nil
 }
